@@ -7,8 +7,15 @@ extern "C" {
 #include <errno.h>
 #include <limits.h>
 #include <new>
+/* The item array buffers are C objects with a hand-made vtable (buffer_alloc.c), which UBSan's C++ vptr check cannot
+ * accept: mpt++/array.cpp and mpt++/item_group.cpp are compiled into this translation unit (from the include path of
+ * the tree under test) with that one check switched off (`link_extra = -fno-sanitize=vptr` in the property module);
+ * everything else stays sanitised. */
+#include "array.cpp"
+#include "item_group.cpp"
 #include "core.h"
 #include "types.h"
+#include "layout.h"
 
 using namespace mpt;
 
@@ -26,6 +33,39 @@ static uint8_t *name_block(uint8_t *dat, size_t dlen, int explicit_len, long len
 	return *tofree;
 }
 
+/* identifiers stored in an item_group (mpt++/item_group.cpp): the slot's identifier lives inside the group's item
+ * array, the group is released with the slot */
+static item_group *groups[MAXID];
+static item_array<metatype> *arrays[MAXID];
+
+static void drop_holder(size_t k)
+{
+	in_lib = (int) k;
+	if (groups[k]) groups[k]->unref();
+	if (arrays[k]) delete arrays[k];
+	in_lib = -1;
+	groups[k] = 0;
+	arrays[k] = 0;
+	slots[k].id = 0;
+}
+static void drop_groups(void)
+{
+	size_t k;
+	for (k = 0; k < nslot; k++) {
+		if (!groups[k] && !arrays[k]) continue;
+		drop_holder(k);
+		reap((int) k);
+	}
+}
+/* the identifier stored in an item becomes slot k; its name block (if any) belongs to that slot */
+static size_t item_slot(const item<metatype> *it)
+{
+	identifier *sid = const_cast<identifier *>(static_cast<const identifier *>(it));
+	size_t k = (size_t) new_slot(sid, 0, RAWID(sid)->_max + 4u);
+	if (RAWID(sid)->_len > RAWID(sid)->_max && nblk < MAXBLK) { blk[nblk].ptr = RAWID(sid)->_base; blk[nblk].owner = (int) k; ++nblk; }
+	return k;
+}
+
 int main(void)
 {
 	static char line[1 << 20];
@@ -37,6 +77,7 @@ int main(void)
 		const char *op = drv_w[1];
 		size_t k, j, n;
 		if (!strcmp(op, "reset") && drv_nw == 2) {
+			drop_groups();
 			drop_all();
 			result("ok");
 		}
@@ -107,6 +148,58 @@ int main(void)
 				put_state();
 			}
 		}
+		else if (!strcmp(op, "gappend") && drv_nw == 3) {
+			/* item_group::append(const identifier *, metatype *): a new item (identifier with 24 bytes) in a fresh group
+			 * that already holds one item; the stored copy becomes a new slot */
+			if (parse_slot(drv_w[2], &j) || nslot >= MAXID) { puts("bad-op"); continue; }
+			item_group *g = new item_group;
+			identifier pre;
+			pre.set_name("pre");
+			g->append(&pre, g->create("line"));
+			metatype *mt = g->create("text");
+			int r = g->append(slots[j].id, mt);
+			span<const item<metatype> > items = g->items();
+			if (r < 0 || items.size() != 2) {
+				if (mt) mt->unref();
+				g->unref();
+				result("refused");
+				continue;
+			}
+			k = item_slot(items.end() - 1);
+			groups[k] = g;
+			result("ok");
+		}
+		else if (!strcmp(op, "aappend") && (drv_nw == 3 || drv_nw == 4)) {
+			/* item_array<metatype>::append(T *, const char *name, int len): a new item named by set_name(name, len) in a
+			 * fresh array that already holds one item */
+			uint8_t *dat; size_t dlen; int isnull; long len;
+			if (nslot >= MAXID || parse_bytes(drv_w[2], &dat, &dlen, &isnull)) { puts("bad-op"); continue; }
+			len = (long) dlen;
+			if (drv_nw == 4 && parse_len(drv_w[3], &len)) { __real_free(dat); puts("bad-op"); continue; }
+			if (isnull || len > (long) dlen) { __real_free(dat); puts("bad-op"); continue; }
+			uint8_t *blk2 = 0, *nm = name_block(dat, dlen, drv_nw == 4, len, &blk2);
+			item_array<metatype> *arr = new item_array<metatype>;
+			arr->append(0, "pre");
+			item<metatype> *it = arr->append(0, (const char *) nm, (int) len);
+			__real_free(blk2);
+			__real_free(dat);
+			if (!it) {
+				long left = arr->length();
+				delete arr;
+				result(left == 1 ? "refused" : "refused !length");
+				continue;
+			}
+			k = item_slot(it);
+			arrays[k] = arr;
+			result("ok");
+		}
+		else if (!strcmp(op, "free") && drv_nw == 3 && !parse_slot(drv_w[2], &k) && (groups[k] || arrays[k])) {
+			/* the group/array is released: item destructor -> identifier::~identifier() */
+			drop_holder(k);
+			char buf[48];
+			snprintf(buf, sizeof(buf), "ok leaked=%zu", reap((int) k));
+			result(buf);
+		}
 		else if (!strcmp(op, "free") && drv_nw == 3) {
 			/* identifier::~identifier(), then the storage is released */
 			if (parse_slot(drv_w[2], &k)) { puts("bad-op"); continue; }
@@ -119,6 +212,7 @@ int main(void)
 		}
 		else puts("bad-op");
 	}
+	drop_groups();
 	drop_all();
 	return 0;
 }
